@@ -63,7 +63,11 @@ func init() {
 	})
 	register("C09", false, func(p *core.Prog, r *core.Report, tier string) {
 		orders.SegmentOrder(p, r)
-		orders.RegionAlgebra(p, r, 3)
+		if tier == "thorough" {
+			orders.RegionAlgebraParallel(p, r, 4) // 2.2 million orderings of up to four segments, all cores
+		} else {
+			orders.RegionAlgebra(p, r, 3)
+		}
 		r.Exhaustive = true
 		r.NotDecided = append(r.NotDecided, "the merge loop of Minimize", "abutment handling", "gap enumeration of invertSegments", "the circular merge of InvertCircular")
 		r.Assumptions = append(r.Assumptions, "sort.Sort sorts correctly when given a strict weak order")
